@@ -11,11 +11,13 @@ GENS = []
 DRIVERS = ['drv_c17']
 PROPS = 'Srctools.Props.C17'
 RULE = ("histories: each case is a sub-seed from which 1-2 instance templates are built through the public vmf API "
-        "(0-3 world brushes from make_prism with random/skewed plane points and random UV axes, 0-5 entities of 14 classes "
+        "(0-3 world brushes from make_prism with random/skewed plane points and random UV axes, 30% of the brushes with 1-2 "
+        "displacement faces of power 1-3 with random normals/distances/offsets/offset normals/alphas/tags/multiblend data, "
+        "visgroups with members in 45% of the templates, 0-5 entities of 15 classes incl. info_node / info_node_link "
         "covering every FGD value type collapse_one dispatches on, outputs, nested func_instance entities with $fixup "
         "tables, hidden items, $variables in names/texts/outputs) and a sequence of 2-5 collapses (origins {zero, fixed, "
         "grid, random}, angles {identity, axis-aligned, multiples of 15, random}, the 3 fixup styles, 9 fixup tables, 8 "
-        "instance names) interleaved over the cached templates into shared or fresh target maps, parameters repeated at a "
+        "instance names, visgroup mode False/True/given group 70/20/10%) interleaved over the cached templates into shared or fresh target maps, parameters repeated at a "
         "different placement with probability 0.5; the model is evaluated on the template as extracted before every step "
         "and compared after every step. Plus: exhaustive substitute() texts of length <= L over a 9-symbol alphabet x 9 "
         "tables x 2 defaults; all fixup_name cases over styles x instance names x name pool; nested two-level placements; "
@@ -29,7 +31,7 @@ TRUSTED = ["the FGD value type of every key is looked up in the implementation's
            "floats are sent to the model as exact rationals; the model computes exactly; comparison tolerance "
            f"{G.TOL_MEM} (relative, in-memory geometry), {G.TOL_TXT} (values that went through 6-decimal text), "
            f"{G.TOL_GIMBAL} for orientations within 0.0011 of vertical"]
-NOT_MODELLED = [G.SPECIAL_KEYS_NOTE, 'displacement faces (disp_pos / vertex normals)', 'visgroup modes True / VisGroup (only visgroup=False)',
+NOT_MODELLED = [G.SPECIAL_KEYS_NOTE, 'visgroup ids / nav-node ids (id allocation in the target map): checked by the direct search only',
                 'instance I/O proxies (func_instance_io_proxy), func_instance_parms typing', 'id allocation in the target map',
                 'Python re.IGNORECASE/casefold beyond ASCII variable names']
 ASSUMPTIONS = ['fixup variable names are ASCII; texts avoid U+017F/U+212A/U+0130/U+0131 (extra case-insensitive matches of ASCII letters)',
@@ -49,14 +51,14 @@ def _wit(ctx, key, what, inp):
 def impl():
     global _IMPL
     if _IMPL is None:
-        from srctools.vmf import VMF, Entity, Output, FixupValue, UVAxis, EntityFixup, Side, Vec4, TriangleTag, DispFlag
+        from srctools.vmf import VMF, Entity, Output, FixupValue, UVAxis, EntityFixup, Side, Vec4, TriangleTag, DispFlag, VisGroup
         from srctools.math import Vec, Matrix, Angle, format_float
         from srctools.fgd import EntityDef, EntityTypes, ValueTypes
         from srctools import instancing
         from srctools.filesys import VirtualFileSystem
         import srctools
         G.quiet()
-        _IMPL = dict(Side=Side, Vec4=Vec4, TriangleTag=TriangleTag, DispFlag=DispFlag, VMF=VMF, Entity=Entity, Output=Output, FixupValue=FixupValue, UVAxis=UVAxis, EntityFixup=EntityFixup,
+        _IMPL = dict(VisGroup=VisGroup, Side=Side, Vec4=Vec4, TriangleTag=TriangleTag, DispFlag=DispFlag, VMF=VMF, Entity=Entity, Output=Output, FixupValue=FixupValue, UVAxis=UVAxis, EntityFixup=EntityFixup,
                      Vec=Vec, Matrix=Matrix, Angle=Angle, format_float=format_float, EntityDef=EntityDef,
                      EntityTypes=EntityTypes, ValueTypes=ValueTypes, I=instancing, VirtualFileSystem=VirtualFileSystem,
                      conv_float=srctools.conv_float)
@@ -94,7 +96,8 @@ def plan_history(rng):
         if prev is not None and rng.random() < 0.15:
             ang, org, ak, ok = steps[-1]['angles'], steps[-1]['origin'], steps[-1]['ak'], steps[-1]['ok']
         steps.append({'t': t, 'params': params, 'angles': ang, 'origin': org, 'ak': ak, 'ok': ok,
-                      'fresh': rng.random() < 0.5})
+                      'fresh': rng.random() < 0.5,
+                      'vis': rng.choice(['strip'] * 7 + ['keep', 'keep', 'group'])})
         prev = (t, params)
     return n_t, steps
 
@@ -131,8 +134,17 @@ def run_history(seed, numeric_vars=False, with_model=True):
         target = VMF() if sp['fresh'] else shared
         nb0, ne0 = len(target.brushes), len(target.entities)
         st.before = [t.export(inc_version=False) for t in templates]
+        st.vis = sp.get('vis', 'strip')
+        keep_hidden = st.vis != 'strip'
+        st.group = target.create_visgroup('collapsed here') if st.vis == 'group' else None
+        visgroup = {'strip': False, 'keep': True, 'group': st.group}[st.vis]
+        st.old_vis_tree = G.vis_tree_flat(tmpl.vis_tree)
+        st.tmpl_roots = list(tmpl.vis_tree)
+        vis0 = {g[0] for g in G.vis_tree_flat(target.vis_tree)}
         st.old_brushes = G.visible_brushes(tmpl)
-        st.old_ents = G.visible_ents(tmpl)
+        st.old_ents = G.visible_ents(tmpl, keep_hidden)
+        st.old_vis = [(set(x.visgroup_ids), x.hidden, x.vis_shown) for x in
+                      st.old_brushes + st.old_ents + [b for e in st.old_ents for b in e.solids]]
         st.old_sides = [[G._side_floats(s) for s in b.sides] for b in st.old_brushes]
         st.old_ent_sides = [[[G._side_floats(s) for s in b.sides] for b in e.solids] for e in st.old_ents]
         st.old_keys = [list(e.items()) for e in st.old_ents]
@@ -145,17 +157,24 @@ def run_history(seed, numeric_vars=False, with_model=True):
             if with_model:
                 subst = lambda v, _f=inst.fixup: _f.substitute(v, '')
                 st.model_req = {'op': 'collapse', 'inst': inst_model(im, inst, params),
-                                'tmpl': G.template_model(im, clf, tmpl, subst)}
+                                'tmpl': G.template_model(im, clf, tmpl, subst, keep_hidden)}
         except Exception as e:  # un-parsable numeric after substitution etc.: model not applicable
             st.model_req = None
             st.model_skip = f'{type(e).__name__}: {e}'
         try:
-            I.collapse_one(target, inst, files[sp['t']])
+            I.collapse_one(target, inst, files[sp['t']], visgroup=visgroup)
         except Exception as e:
             st.error = f'{type(e).__name__}: {e}'
         st.after = [t.export(inc_version=False) for t in templates]
         st.new_brushes = target.brushes[nb0:]
         st.new_ents = target.entities[ne0:]
+        st.target_nodeids = [e['nodeid'] for e in target.entities if 'nodeid' in e]
+        st.vis_map = dict(inst.visgroup_ids)
+        st.new_vis_tree = [g for g in G.vis_tree_flat(target.vis_tree) if g[0] not in vis0]
+        st.new_vis = [(set(x.visgroup_ids), x.hidden, x.vis_shown) for x in
+                      list(st.new_brushes) + list(st.new_ents) + [b for e in st.new_ents for b in e.solids]]
+        st.group_children = [c.id for c in st.group.child_groups] if st.group is not None else None
+        st.group_id = st.group.id if st.group is not None else None
         st.face_ids = dict(inst.face_ids)
         st.view = None
         if st.error is None and len(st.new_ents) == len(st.old_ents):
@@ -397,6 +416,62 @@ def check_step(st, prng):
         got = [v for _, v in new.fixup.items()]
         if got != want:
             bad.append(('nested-fixup', f'{w}: $fixup values {st.old_fix[n]} -> {got}, expected {want}'))
+    # (V) visgroups: stripped (visgroup=False), kept (True: the template's groups are copied into the map), or
+    # everything put below a given group
+    if st.vis == 'strip':
+        if any(v != (set(), False, True) for v in st.new_vis):
+            bad.append(('visgroups', f'visgroup=False: copied items still carry visgroup membership / hidden flags: {[v for v in st.new_vis if v != (set(), False, True)][:3]}'))
+        if st.new_vis_tree:
+            bad.append(('visgroups', f'visgroup=False: visgroups {st.new_vis_tree} were added to the map'))
+    else:
+        m = st.vis_map
+        old_ids = [g[0] for g in st.old_vis_tree]
+        new_by_id = {g[0]: g for g in st.new_vis_tree}
+        if sorted(m) != sorted(old_ids) or len(set(m.values())) != len(m):
+            bad.append(('visgroups', f'visgroup id map {m} is not a one-to-one map of the template groups {old_ids}'))
+        else:
+            for gid, name, color, kids in st.old_vis_tree:
+                ng = new_by_id.get(m[gid])
+                if ng is None or ng[1] != name or ng[2] != color or ng[3] != [m[k] for k in kids]:
+                    bad.append(('visgroups', f'template visgroup {(gid, name, color, kids)} has no faithful copy in the map (got {ng})'))
+            roots = [m[g.id] for g in st.tmpl_roots]
+            if st.vis == 'group' and st.group_children != roots:
+                bad.append(('visgroups', f'the copies of the template\'s top-level groups {roots} are not the children {st.group_children} of the given group'))
+            default = {st.group_id} if st.vis == 'group' else set()
+            if len(st.new_vis) == len(st.old_vis):
+                for n, ((ov, oh, os_), (nv, nh, ns)) in enumerate(zip(st.old_vis, st.new_vis)):
+                    want = {m[g] for g in ov} or default
+                    if nv != want or (nh, ns) != (oh, os_):
+                        bad.append(('visgroups', f'item {n}: visgroups {sorted(ov)} hidden={oh} shown={os_} -> {sorted(nv)} hidden={nh} shown={ns}, expected {sorted(want)} with the same flags'))
+                        break
+    # (N) nav-node ids: every copied node has an id of its own in the target map, and a link that referred to a node
+    # of the template refers to the copy of that node
+    node_new = {}
+    for old_kv, new in zip(st.old_keys, st.new_ents):
+        okeys = dict(old_kv)
+        for k, v in old_kv:
+            if clf.kind(okeys, k) == 'special:TARG_NODE_SOURCE':
+                try:
+                    node_new[int(v)] = new[k]
+                except ValueError:
+                    pass
+    ints = [v for v in st.target_nodeids if v.lstrip('-').isdigit()]
+    if len(set(ints)) != len(ints):
+        bad.append(('node-ids', f'node ids in the target map are not unique after the collapse: {sorted(ints)}'))
+    for n, (old_kv, new) in enumerate(zip(st.old_keys, st.new_ents)):
+        okeys = dict(old_kv)
+        for k, v in old_kv:
+            if clf.kind(okeys, k) != 'special:TARG_NODE_DEST':
+                continue
+            try:
+                ref = int(v)
+            except ValueError:
+                if new[k] != v:
+                    bad.append(('node-ids', f'ent[{n}].{k}: non-numeric node reference {v!r} -> {new[k]!r}'))
+                continue
+            if ref in node_new and new[k] != node_new[ref]:
+                bad.append(('node-ids', f'ent[{n}]({okeys.get("classname")}).{k} referred to the template node with nodeid {ref}; '
+                                        f'the copy of that node has nodeid {node_new[ref]} but the copied link says {new[k]!r}'))
     # face id map covers every visible face
     missing = [f for f in st.old_face_ids if f not in st.face_ids]
     if missing:
@@ -443,7 +518,7 @@ def check_pairs(steps):
     for i, st in enumerate(steps):
         if st.error is not None or st.nongeo is None:
             continue
-        key = (st.plan['t'], json.dumps(st.params, sort_keys=True))
+        key = (st.plan['t'], json.dumps(st.params, sort_keys=True), st.vis != 'strip')
         if key not in first:
             first[key] = (i, st.nongeo, st.unplaced, st)
             continue
@@ -860,6 +935,7 @@ def correspond(ctx, drivers):
             ctx.count('angles ' + st.plan['ak']); ctx.count('origin ' + st.plan['ok'])
             ctx.count('style ' + G.STYLE_NAMES[st.params['style']])
             ctx.count('target ' + ('fresh' if st.plan['fresh'] else 'shared'))
+            ctx.count('visgroup mode ' + st.vis)
             ctx.count('brushes placed', len(st.old_brushes)); ctx.count('entities placed', len(st.old_ents))
             ctx.count('displacement faces placed', st.disp_faces[0])
             if st.error:
@@ -932,7 +1008,49 @@ def _fixed_witness():
     return before == t.export(inc_version=False), res, e.fixup['$color']
 
 
+def _fixed_node_witness():
+    """Template: nodes 1, 2 and a link 1 -> 2; collapsed twice into the same map."""
+    im = impl()
+    I, VMF, Vec, Matrix = im['I'], im['VMF'], im['Vec'], im['Matrix']
+    t = VMF()
+    t.create_ent('info_node', origin='0 0 0', nodeid='1')
+    t.create_ent('info_node', origin='64 0 0', nodeid='2')
+    t.create_ent('info_node_link', origin='0 0 0', startnode='1', endnode='2')
+    f = I.InstanceFile(t)
+    target = VMF()
+    res = []
+    for k in range(2):
+        n0 = len(target.entities)
+        I.collapse_one(target, I.Instance(f'A{k}', 'a.vmf', Vec(64 * k, 0, 0), Matrix(), I.FixupStyle.PREFIX), f)
+        e = target.entities[n0:]
+        res.append((e[0]['nodeid'], e[1]['nodeid'], e[2]['startnode'], e[2]['endnode']))
+    ok = all(r[0] == r[2] and r[1] == r[3] for r in res) and len({x for r in res for x in r[:2]}) == 4
+    return ok, res
+
+
+def _fixed_vis_witness():
+    """A func_door whose brush is in template visgroup 1, collapsed with visgroup=False into a map that has its own group 1."""
+    im = impl()
+    I, VMF, Vec, Matrix = im['I'], im['VMF'], im['Vec'], im['Matrix']
+    t = VMF()
+    g = t.create_visgroup('detail')
+    d = t.create_ent('func_door', origin='0 0 0', targetname='d')
+    b = t.make_prism(Vec(0, 0, 0), Vec(8, 8, 8)).solid
+    b.visgroup_ids.add(g.id)
+    d.solids.append(b)
+    f = I.InstanceFile(t)
+    target = VMF()
+    target.create_visgroup('unrelated group of the map')
+    I.collapse_one(target, I.Instance('A', 'a.vmf', Vec(), Matrix(), I.FixupStyle.PREFIX), f)
+    got = set(target.entities[0].solids[0].visgroup_ids)
+    return got == set(), got
+
+
 def replay_known(ctx, finding):
+    if finding.get('key') == 'visgroups':
+        return not _fixed_vis_witness()[0]
+    if finding.get('key') == 'node-ids':
+        return not _fixed_node_witness()[0]
     if finding.get('key') == 'template-fixup-shared':
         same, res, tv = _fixed_witness()
         return not (same and res == ['A-red', 'A-red'] and tv == 'red')
@@ -968,6 +1086,14 @@ def replay(ctx, payload):
         r = inst.fixup_name(inp['name'])
         print('fixup_name', inp, '->', repr(r))
         return r == G.spec_fixup_name(inp['style'], inp['inst'], inp['name'])
+    if kind == 'fixed-visgroup-strip':
+        ok, got = _fixed_vis_witness()
+        print('visgroup ids left on the collapsed entity brush:', got)
+        return ok
+    if kind == 'fixed-node-ids':
+        ok, res = _fixed_node_witness()
+        print('(node a, node b, link start, link end) per collapse:', res)
+        return ok
     if kind == 'fixed-template-fixup':
         same, res, tv = _fixed_witness()
         print('template unchanged:', same, 'results:', res, 'template value:', tv)
